@@ -5,7 +5,10 @@
 // ChainSource backed by a chaingen block tree and a real
 // blockntfns.SubscriptionManager; seeded histories of growth, reorganisations,
 // fetch failures and filter updates at every phase of the rescan; one ordered
-// log judged by the reference walk.
+// log judged by the reference walk. Family stale-rewind (internal/c09/stale.go):
+// Update with Rewind (with / without DisableDisconnectedNtfns) applied while the
+// block the caller holds is off the best chain (reorganisation not yet consumed
+// by the rescan: notifications queued, racing, or during a walk by height).
 //
 // L2 part (internal/c09/l2.go): the same oracle applied to the real client end
 // to end: neutrino.NewRescan(&neutrino.RescanChainSource{svc}) on the complete
@@ -15,7 +18,10 @@
 // the client runs with PersistToDisk, a first rescan fills the filter store
 // through the batch writer, the filter cache is made cold (restart on the same
 // data directory / tiny cache) and a second rescan (also rewound by an Update)
-// over the same range is served from the persisted store.
+// over the same range is served from the persisted store. Family
+// l2-stale-rewind (l2.go planStale): the stale-rewind shape on the complete
+// client (rescan parked in a callback, peers reorganise, client adopts, Update
+// with Rewind on offer when the callback returns).
 package main
 
 import (
